@@ -236,8 +236,7 @@ def _bad_stops(case, stops):
 def coq_stops(case, obs):
     if 'exc' in obs:
         return None
-    C = stops_matrix(case)
-    return '(%d%%nat, %s, %s)' % (len(C) - 1, coq_list(coq_list(q(v) for v in r) for r in C), q(sum(s[2] ** 2 for s in obs['stops'])))
+    return '(%s, %s, %s, %s, %s)' % (coq_list(q(v) for v in case['x']), coq_list(q(v) for v in case['t']), q(case['diameter']), q(case['duration']), q(sum(s[2] ** 2 for s in obs['stops'])))
 
 
 def oracle_stops(case, obs):
@@ -266,9 +265,15 @@ S_STOPS = Stream(
     rule=('findStopsGlobal on collinear tracks of 4..10 fixes (the enclosing circle of collinear fixes has their extent for diameter, so the documented reward matrix is computed exactly) '
           'with heights that vary by more than the diameter, diameters and durations at half-integers (no ties); the reward realised by the returned stops is compared with the model\'s '
           'maximum on the documented matrix and with brute force; non-trivial = at least one stop'),
-    imports=IMPORTS, case_type='nat * list (list Q) * Q',
-    check_def='''Definition cm (m : list (list Q)) : tab Q := fun i j => nth j (nth i m []) 0.
-Definition ok (c : nat * list (list Q) * Q) : bool := let '(N, m, got) := c in Qeq_bool (chain_cost (cm m) (optimal_partition false N (cm m))) got.''',
+    imports=IMPORTS + '\nFrom TL Require Import Proofs.Partition_seg Proofs.Partition_stops.', case_type='list Q * list Q * Q * Q * Q',
+    check_def='''(* collinear fixes: the smallest circle enclosing the fixes a .. b has their extent for diameter *)
+Definition qmax (a b : Q) : Q := if Qle_bool a b then b else a.
+Definition qmin (a b : Q) : Q := if Qle_bool a b then a else b.
+Definition extent (xs : list Q) (a b : nat) : Q := let seg := firstn (S b - a) (skipn a xs) in
+  match seg with [] => 0 | x :: r => fold_left qmax r x - fold_left qmin r x end.
+Definition ok (c : list Q * list Q * Q * Q * Q) : bool := let '(xs, ts, diameter, duration, got) := c in
+  let circle := extent xs in let span := fun a b => nth b ts 0 - nth a ts 0 in
+  Qeq_bool (seg_cost (reward circle span diameter duration) (find_stops_partition circle span diameter duration (length xs))) got.''',
     generate=gen_stops, run_impl=run_stops, coq_case=coq_stops, oracle=oracle_stops,
     nontrivial=lambda c, o: bool(o.get('stops')), klass=lambda c, o: 'stops=%d' % len(o.get('stops', [])))
 
